@@ -335,6 +335,22 @@ func genGraph(r *rand.Rand, s *gSchema, p *profile) *gGraph {
 				return sx.L("other", "7")
 			}
 			n := r.Intn(4)
+			if bt := s.byID[t.of.base()]; t.of.kind == 'n' && (bt.kind == "leaf" || bt.kind == "enum") && chance(r, 0.15) {
+				// a typed Go slice, of the right or of another element kind
+				out := []sx.S{[]string{"tstrs", "tints", "tbools"}[r.Intn(3)]}
+				for i := 0; i < n; i++ {
+					switch out[0].(string) {
+					case "tstrs":
+						out = append(out, sx.A(r.Intn(9)))
+					case "tints":
+						out = append(out, sx.A(r.Intn(100)))
+					default:
+						out = append(out, sx.A(r.Intn(2)))
+					}
+				}
+				g.hasIll = true
+				return out
+			}
 			kind := "list"
 			if x := r.Intn(10); x < 3 {
 				kind = "lres"
